@@ -184,6 +184,7 @@ def run(ctx: Ctx):
     checker_clock(ctx)
     padding_is_depot(ctx)
     pctsp_all_visited_count(ctx)
+    svrp_every_route_checked(ctx)
     per_row_asserts(ctx)
     explained_asserts(ctx)
     gate(ctx)
@@ -555,6 +556,43 @@ def pctsp_all_visited_count(ctx: Ctx):
                 ok = (-inst == want) or (inst == want)
                 why = f"non-depot actions are counted against {(-inst).show(2)} (or its negative); customers of the instance: {want.show(2)}"
         ctx.ob("C06.n", f"{cname}.checker:all-visited-count", ok, sl.where, why, construct=f"{cname}.check_solution_validity:all-visited-count")
+
+
+def svrp_every_route_checked(ctx: Ctx):
+    """C06.o SVRP validates skills route by route in a Python loop over the depot visits of the action sequence.  Every route
+    must be covered, including the one that is still open when the sequence ends (mask-produced tours do not end with a depot
+    visit): either the sequence is closed with a depot visit before the depot positions are collected, or a trailing check of
+    `[start:]` follows the loop (and the switch to the next batch row).  `_get_reward`, which walks the same positions, has
+    these trailing statements; the two siblings must agree."""
+    import ast
+    env = EnvA(ctx.repo, T.CHECK_ENVS["SVRPEnv"][0], "SVRPEnv")
+    fi = env.resolve("check_solution_validity")
+    ctx.fn(fi)
+    loops = [n for n in fi.node.body if isinstance(n, ast.For)]
+    ok, why = False, f"expected one loop over the depot visits, found {len(loops)}"
+    if len(loops) == 1:
+        lp = loops[0]
+        idx_after = fi.node.body.index(lp)
+        trailing = [st for st in fi.node.body[idx_after + 1:] for n in ast.walk(st) if isinstance(n, ast.Assert) and "skills" in ast.unparse(n.test)]
+        # closed sequence: the positions iterated over come from a tensor that had a depot column appended
+        it_name = lp.iter.id if isinstance(lp.iter, ast.Name) else None
+        closed = False
+        if it_name:
+            src = None
+            for st in fi.node.body[:idx_after]:
+                if isinstance(st, ast.Assign) and any(isinstance(t, ast.Name) and t.id == it_name for t in st.targets):
+                    src = st.value
+            if src is not None:
+                names = {x.id for x in ast.walk(src) if isinstance(x, ast.Name)}
+                for st in fi.node.body[:idx_after]:
+                    if isinstance(st, ast.Assign) and any(isinstance(t, ast.Name) and t.id in names for t in st.targets):
+                        txt = ast.unparse(st.value)
+                        if ("torch.cat" in txt or "F.pad" in txt or "pad(" in txt) and "actions" in txt and ("zeros" in txt or "pad" in txt):
+                            closed = True
+        ok = closed or bool(trailing)
+        why = (f"the action sequence is closed with a depot visit before the depot positions are collected: {closed}; trailing check of the open route after the loop: {bool(trailing)}")
+    ctx.ob("C06.o", "SVRPEnv.checker:every-route-checked", ok, fi.loc, why if ok else why + " -- the route of the last technician (and a sequence without depot visits) is never validated",
+           construct="SVRPEnv.check_solution_validity:last-route")
 
 
 def run_thorough(ctx: Ctx):
